@@ -121,6 +121,12 @@ fn ident_str(p: &[Node]) -> String {
 }
 
 fn rand_node(rng: &mut Rng) -> Node {
+    if BIGRAT.load(std::sync::atomic::Ordering::Relaxed) && rng.chance(1, 2) {
+        // wide scope: numerators / denominators beyond 32 bits, both signs, markers up to 40
+        let n = (rng.next() % 40_000_000_000u64) as i64 - 20_000_000_000i64;
+        let d = [1i64, 3, 1 << 20, 6_000_000_007, -7][rng.below(5)];
+        return (n, d, rng.below(41) as u64);
+    }
     // few distinct rationals (written un-normalised on purpose: 2/4, -3/-6 …) and few markers => many ties
     let d = [1i64, 2, 3, 4, -2][rng.below(5)];
     (rng.below(7) as i64 - 3, d, rng.below(4) as u64)
@@ -249,6 +255,8 @@ pub struct Hist {
     pub w_rr: usize,
     pub w_eq: usize,
     pub w_persist: usize,
+    /// persist an OP (`PO`: serialise + deserialise a random op defined so far; later deliveries use the restored op)
+    pub w_persist_op: usize,
     /// oracle commands: merge laws (ML), merge-vs-delivery (MU), absorption (AB)
     pub w_laws: usize,
     pub w_mu: usize,
@@ -268,7 +276,7 @@ impl Hist {
         Hist {
             ty, min_rep: 2, max_rep: 3, min_steps: 4, max_steps: 16, disc,
             w_gen: 30, w_deliver: 40, w_dup: 6, w_merge: 0, w_snap: 0, w_validate: 0, w_vmerge: 0, w_rr: 0, w_eq: 0,
-            w_persist: 0, w_laws: 0, w_mu: 0, w_absorb: 0, w_ro: 0, snap_only: false, flush: false, end_oracle: true,
+            w_persist: 0, w_persist_op: 0, w_laws: 0, w_mu: 0, w_absorb: 0, w_ro: 0, snap_only: false, flush: false, end_oracle: true,
         }
     }
 }
@@ -296,7 +304,7 @@ pub fn history(out: &mut String, rng: &mut Rng, h: &Hist, gen_args: &mut dyn FnM
             Disc::Fifo => ops[j].deps.iter().filter(|d| ops[**d].author == ops[j].author).all(|d| k(*d)),
         }
     };
-    let total = h.w_gen + h.w_deliver + h.w_dup + h.w_merge + h.w_snap + h.w_validate + h.w_vmerge + h.w_rr + h.w_eq + h.w_persist + h.w_laws + h.w_mu + h.w_absorb + h.w_ro;
+    let total = h.w_gen + h.w_deliver + h.w_dup + h.w_merge + h.w_snap + h.w_validate + h.w_vmerge + h.w_rr + h.w_eq + h.w_persist + h.w_persist_op + h.w_laws + h.w_mu + h.w_absorb + h.w_ro;
     for _ in 0..steps {
         let mut x = rng.below(total);
         let r = rng.below(n);
@@ -415,6 +423,13 @@ pub fn history(out: &mut String, rng: &mut Rng, h: &Hist, gen_args: &mut dyn FnM
         x -= h.w_absorb;
         if x < h.w_ro {
             writeln!(out, "RO").unwrap();
+            continue;
+        }
+        x -= h.w_ro;
+        if x < h.w_persist_op {
+            if !ops.is_empty() {
+                writeln!(out, "PO o{}", rng.below(ops.len())).unwrap();
+            }
             continue;
         }
         writeln!(out, "P {}", r).unwrap();
@@ -551,6 +566,31 @@ fn hist_cases(out: &mut String, rng: &mut Rng, h: &Hist, cases: usize, gen_args:
     }
 }
 
+/// scope knobs of the `*_wide` profiles (defaults = the dense small scope: 3 elements / keys, batches of <= 3, 3 actors in hand-made clocks)
+static DOM: std::sync::atomic::AtomicUsize = std::sync::atomic::AtomicUsize::new(3);
+static KEYDOM: std::sync::atomic::AtomicUsize = std::sync::atomic::AtomicUsize::new(3);
+static BATCH: std::sync::atomic::AtomicUsize = std::sync::atomic::AtomicUsize::new(3);
+static ACTORS: std::sync::atomic::AtomicUsize = std::sync::atomic::AtomicUsize::new(3);
+static BIGRAT: std::sync::atomic::AtomicBool = std::sync::atomic::AtomicBool::new(false);
+fn dom() -> usize {
+    DOM.load(std::sync::atomic::Ordering::Relaxed)
+}
+fn keydom() -> usize {
+    KEYDOM.load(std::sync::atomic::Ordering::Relaxed)
+}
+fn batch() -> usize {
+    BATCH.load(std::sync::atomic::Ordering::Relaxed)
+}
+fn actors() -> u64 {
+    ACTORS.load(std::sync::atomic::Ordering::Relaxed) as u64
+}
+fn set_scope(dom: usize, keydom: usize, batch: usize, actors: usize) {
+    DOM.store(dom, std::sync::atomic::Ordering::Relaxed);
+    KEYDOM.store(keydom, std::sync::atomic::Ordering::Relaxed);
+    BATCH.store(batch, std::sync::atomic::Ordering::Relaxed);
+    ACTORS.store(actors, std::sync::atomic::Ordering::Relaxed);
+}
+
 fn nat_list(rng: &mut Rng, dom: usize, maxlen: usize) -> String {
     let n = rng.below(maxlen + 1);
     let v: Vec<String> = (0..n).map(|_| rng.below(dom).to_string()).collect();
@@ -560,22 +600,22 @@ fn nat_list(rng: &mut Rng, dom: usize, maxlen: usize) -> String {
 /// API-level Orswot edits over a 3-element domain (collisions are the point)
 pub fn orswot_args(rng: &mut Rng, _r: usize) -> String {
     match rng.below(20) {
-        0..=7 => format!("add {}", rng.below(3)),
-        8 => format!("addr {}", rng.below(3)),
-        9 => format!("addall {}", nat_list(rng, 3, 3)),
-        10..=14 => format!("rm {}", rng.below(3)),
-        15 | 16 => format!("rmread {}", rng.below(3)),
-        17 => format!("rmall {}", nat_list(rng, 3, 3)),
-        18 => format!("rmall {}", nat_list(rng, 3, 2)),
+        0..=7 => format!("add {}", rng.below(dom())),
+        8 => format!("addr {}", rng.below(dom())),
+        9 => format!("addall {}", nat_list(rng, dom(), batch())),
+        10..=14 => format!("rm {}", rng.below(dom())),
+        15 | 16 => format!("rmread {}", rng.below(dom())),
+        17 => format!("rmall {}", nat_list(rng, dom(), batch())),
+        18 => format!("rmall {}", nat_list(rng, dom(), batch().min(2).max(batch() / 2))),
         _ => {
             // remove with a hand-made (possibly future) context, as the repo's own tests do
             let mut v = vec![];
-            for a in 0..3u64 {
+            for a in 0..actors() {
                 if rng.chance(1, 2) {
                     v.push((a, 1 + rng.below(4) as u64));
                 }
             }
-            format!("rmctx {} {}", rng.below(3), clock_str(&v))
+            format!("rmctx {} {}", rng.below(dom()), clock_str(&v))
         }
     }
 }
@@ -586,23 +626,23 @@ static NO_RMCTX: std::sync::atomic::AtomicBool = std::sync::atomic::AtomicBool::
 fn map_rm_args(rng: &mut Rng) -> String {
     let top = if NO_RMCTX.load(std::sync::atomic::Ordering::Relaxed) { 7 } else { 8 };
     match rng.below(top) {
-        0..=4 => format!("rm {}", rng.below(3)),
-        5 | 6 => format!("rmread {}", rng.below(3)),
+        0..=4 => format!("rm {}", rng.below(keydom())),
+        5 | 6 => format!("rmread {}", rng.below(keydom())),
         _ => {
             let mut v = vec![];
-            for a in 0..3u64 {
+            for a in 0..actors() {
                 if rng.chance(1, 2) {
                     v.push((a, 1 + rng.below(4) as u64));
                 }
             }
-            format!("rmctx {} {}", rng.below(3), clock_str(&v))
+            format!("rmctx {} {}", rng.below(keydom()), clock_str(&v))
         }
     }
 }
 
 pub fn map_mvreg_args(rng: &mut Rng, _r: usize) -> String {
     if rng.chance(2, 3) {
-        format!("up {} write {}", rng.below(3), 5 + 2 * rng.below(2))
+        format!("up {} write {}", rng.below(keydom()), 5 + 2 * rng.below(2))
     } else {
         map_rm_args(rng)
     }
@@ -610,29 +650,31 @@ pub fn map_mvreg_args(rng: &mut Rng, _r: usize) -> String {
 
 fn orswot_nested_args(rng: &mut Rng) -> String {
     match rng.below(10) {
-        0..=4 => format!("add {}", rng.below(3)),
-        5 => format!("addall {}", nat_list(rng, 3, 2)),
-        6..=8 => format!("rm {}", rng.below(3)),
-        _ => format!("rmread {}", rng.below(3)),
+        0..=4 => format!("add {}", rng.below(dom())),
+        5 => format!("addall {}", nat_list(rng, dom(), batch().min(4).max(2))),
+        6..=8 => format!("rm {}", rng.below(dom())),
+        _ => format!("rmread {}", rng.below(dom())),
     }
 }
 
 pub fn map_orswot_args(rng: &mut Rng, _r: usize) -> String {
     if rng.chance(3, 4) {
-        format!("up {} {}", rng.below(3), orswot_nested_args(rng))
+        format!("up {} {}", rng.below(keydom()), orswot_nested_args(rng))
     } else {
         map_rm_args(rng)
     }
 }
 
 pub fn map_map_mvreg_args(rng: &mut Rng, _r: usize) -> String {
+    let inner_keys = if keydom() > 3 { 4 } else { 2 };
+    let outer_keys = if keydom() > 3 { 4 } else { 2 };
     if rng.chance(3, 4) {
         let inner = if rng.chance(3, 4) {
-            format!("up {} write {}", rng.below(2), 5 + 2 * rng.below(2))
+            format!("up {} write {}", rng.below(inner_keys), 5 + 2 * rng.below(2))
         } else {
-            format!("rm {}", rng.below(2))
+            format!("rm {}", rng.below(inner_keys))
         };
-        format!("up {} {}", rng.below(2), inner)
+        format!("up {} {}", rng.below(outer_keys), inner)
     } else {
         map_rm_args(rng)
     }
@@ -840,6 +882,258 @@ pub fn map_overtake(out: &mut String, rng: &mut Rng, cases: usize) {
         // no `E` (whole-state convergence) here: nested contents of Map are a known finding; the key level is compared with
         // the specification of the knowledge set after every command
         writeln!(out, "EQ 0 1").unwrap();
+    }
+}
+
+/// `*_wide` profiles: the same command families as the dense small-scope profiles, at a WIDER scope (more replicas/actors, larger
+/// element / key domains, larger and repeating batches, longer histories, numbers beyond 32 and 53 bits, deep identifiers, long lists):
+/// changes that only manifest beyond the small scope (many entries in one container, many actors in one clock, big values) are
+/// invisible to the dense profiles however many cases they run.
+pub fn wide(out: &mut String, rng: &mut Rng, profile: &str, cases: usize) {
+    match profile {
+        "orswot_wide" => {
+            set_scope(8, 8, 6, 6);
+            for i in 0..cases {
+                let disc = if i % 3 == 0 { Disc::Causal } else { Disc::Fifo };
+                let mut h = Hist::new("orswot", disc);
+                h.min_rep = 5;
+                h.max_rep = 6;
+                h.min_steps = 20;
+                h.max_steps = 50;
+                h.w_gen = 34;
+                h.w_merge = 8;
+                h.w_snap = 5;
+                h.w_dup = 5;
+                h.w_eq = 2;
+                h.w_absorb = 2;
+                h.w_laws = 3;
+                h.w_mu = 3;
+                h.flush = i % 2 == 0;
+                history(out, rng, &h, &mut orswot_args);
+            }
+            set_scope(3, 3, 3, 3);
+        }
+        "mvreg_wide" => {
+            for i in 0..cases {
+                let mut h = Hist::new("mvreg", Disc::Any);
+                h.min_rep = 5;
+                h.max_rep = 6;
+                h.min_steps = 20;
+                h.max_steps = 45;
+                h.w_gen = 36;
+                h.w_merge = 8;
+                h.w_snap = 5;
+                h.w_dup = 6;
+                h.w_eq = 4;
+                h.w_persist = 5;
+                h.flush = i % 2 == 0;
+                history(out, rng, &h, &mut |r, _| format!("write {}", 5 + 2 * r.below(2)));
+            }
+        }
+        "map_wide" => {
+            set_scope(5, 6, 4, 5);
+            let tys = ["map_mvreg", "map_orswot", "map_map_mvreg"];
+            for i in 0..cases {
+                let ty = tys[i % 3];
+                let disc = [Disc::Causal, Disc::Fifo, Disc::Causal, Disc::Any][(i / 3) % 4];
+                let mut h = Hist::new(ty, disc);
+                h.min_rep = 4;
+                h.max_rep = 5;
+                h.min_steps = 20;
+                h.max_steps = 40;
+                h.w_gen = 40;
+                h.w_dup = 5;
+                if (i / 3) % 4 != 0 {
+                    h.w_merge = 8;
+                    h.w_snap = 4;
+                }
+                h.w_validate = 2;
+                h.w_vmerge = 2;
+                h.w_eq = 2;
+                h.end_oracle = false;
+                let f: &mut dyn FnMut(&mut Rng, usize) -> String = match ty {
+                    "map_mvreg" => &mut map_mvreg_args,
+                    "map_orswot" => &mut map_orswot_args,
+                    _ => &mut map_map_mvreg_args,
+                };
+                history(out, rng, &h, f);
+            }
+            set_scope(3, 3, 3, 3);
+        }
+        "lattice_wide" => {
+            // counters / values beyond 32 and 53 bits (JSON numbers, u64 arithmetic), 6 actors, larger sets; persisted in between
+            let per = (cases + 5) / 6;
+            let mk = |ty: &'static str| {
+                let mut h = Hist::new(ty, Disc::Any);
+                h.min_rep = 4;
+                h.max_rep = 6;
+                h.min_steps = 10;
+                h.max_steps = 30;
+                h.w_merge = 10;
+                h.w_snap = 6;
+                h.w_dup = 6;
+                h.w_validate = 2;
+                h.w_vmerge = 2;
+                h.w_eq = 3;
+                h.w_laws = 3;
+                h.w_mu = 3;
+                h.w_absorb = 2;
+                h.w_persist = 6;
+                h.w_persist_op = 5;
+                h
+            };
+            // one HUGE step (2^62) per replica and case at most: per-actor totals stay below 2^64 (u64 overflow is outside the model),
+            // while the SUM over actors may pass 2^64 (the read is a BigUint)
+            let mut huge_used = vec![false; 8];
+            let big = |r: &mut Rng| -> u64 {
+                match r.below(6) {
+                    0 => r.below(5) as u64,
+                    1 => 4_294_967_295 + r.below(3) as u64,
+                    2 => 9_007_199_254_740_991 + r.below(4) as u64,
+                    3 => 1_000_000_007 * (1 + r.below(9) as u64),
+                    4 => (1u64 << 40) + r.below(1000) as u64,
+                    _ => 1 + r.below(100) as u64,
+                }
+            };
+            for _ in 0..per {
+                for u in huge_used.iter_mut() {
+                    *u = false;
+                }
+                history(out, rng, &mk("gcounter"), &mut |r, rep| {
+                    if !huge_used[rep] && r.chance(1, 3) {
+                        huge_used[rep] = true;
+                        return format!("incmany {}", (1u64 << 62) + r.below(1000) as u64);
+                    }
+                    if r.chance(1, 3) { "inc".to_string() } else { format!("incmany {}", big(r)) }
+                });
+            }
+            for _ in 0..per {
+                for u in huge_used.iter_mut() {
+                    *u = false;
+                }
+                history(out, rng, &mk("pncounter"), &mut |r, rep| {
+                    if !huge_used[rep] && r.chance(1, 3) {
+                        huge_used[rep] = true;
+                        let k = (1u64 << 61) + r.below(1000) as u64;
+                        return if r.chance(1, 2) { format!("incmany {}", k) } else { format!("decmany {}", k) };
+                    }
+                    match r.below(4) {
+                        0 => "inc".to_string(),
+                        1 => "dec".to_string(),
+                        2 => format!("incmany {}", big(r)),
+                        _ => format!("decmany {}", big(r)),
+                    }
+                });
+            }
+            hist_cases(out, rng, &mk("gset"), per, &mut |r, _| format!("ins {}", if r.chance(1, 4) { big(r) } else { r.below(14) as u64 }));
+            let mut step = 0u64;
+            hist_cases(out, rng, &mk("lwwreg"), per, &mut |r, rep| {
+                step += 1;
+                format!("write {} {}", big(r), big(r) / 16 * 16 * 64 + step * 8 + rep as u64)
+            });
+            hist_cases(out, rng, &mk("maxreg"), per, &mut |r, _| format!("write {}", big(r)));
+            hist_cases(out, rng, &mk("minreg"), per, &mut |r, _| format!("write {}", big(r)));
+        }
+        "vclock_wide" => {
+            let mut h = Hist::new("vclock", Disc::Any);
+            h.min_rep = 5;
+            h.max_rep = 6;
+            h.min_steps = 15;
+            h.max_steps = 40;
+            h.w_merge = 10;
+            h.w_snap = 6;
+            h.w_validate = 8;
+            h.w_rr = 3;
+            h.w_eq = 4;
+            hist_cases(out, rng, &h, cases, &mut |_, _| "inc".to_string());
+        }
+        "list_wide" => {
+            // long lists, many actors, heavy contention at a few positions (deep identifiers), indices up to and beyond len
+            let mut val = 0u64;
+            for i in 0..cases {
+                let mut h = Hist::new("list", Disc::Causal);
+                h.min_rep = 4;
+                h.max_rep = 6;
+                h.min_steps = 50;
+                h.max_steps = 120;
+                h.w_gen = 45;
+                h.w_deliver = 50;
+                h.w_dup = 5;
+                h.w_validate = 3;
+                h.w_eq = 2;
+                h.w_persist = 1;
+                h.w_absorb = 2;
+                h.w_ro = 2;
+                h.w_snap = 2;
+                h.snap_only = true;
+                h.flush = i % 2 == 0;
+                let style = i % 3;
+                history(out, rng, &h, &mut |r, _| {
+                    val += 1;
+                    match style {
+                        0 => match r.below(10) {
+                            0..=6 => format!("ins {} {}", r.below(3), val % 50),
+                            _ => format!("del {}", r.below(3)),
+                        },
+                        1 => match r.below(10) {
+                            0..=3 => format!("ins {} {}", r.below(40), val % 50),
+                            4..=6 => format!("append {}", val % 50),
+                            _ => format!("del {}", r.below(30)),
+                        },
+                        _ => match r.below(10) {
+                            0..=5 => format!("append {}", val % 50),
+                            6 | 7 => format!("ins 0 {}", val % 50),
+                            _ => format!("del {}", r.below(12)),
+                        },
+                    }
+                });
+            }
+        }
+        "glist_wide" => {
+            for i in 0..cases {
+                let mut h = Hist::new("glist", Disc::Any);
+                h.min_rep = 4;
+                h.max_rep = 6;
+                h.min_steps = 30;
+                h.max_steps = 70;
+                h.w_gen = 45;
+                h.w_merge = 6;
+                h.w_snap = 3;
+                h.w_eq = 2;
+                h.flush = i % 2 == 0;
+                let mut own = vec![0usize; 6];
+                history(out, rng, &h, &mut |r, rep| {
+                    let e = r.below(9);
+                    let n = own[rep];
+                    own[rep] += 1;
+                    match r.below(10) {
+                        0..=4 => format!("ins {} {}", r.below(n + 1), e),
+                        5..=7 => format!("after {} {}", r.below(n + 2), e),
+                        _ => format!("before {} {}", r.below(n + 2), e),
+                    }
+                });
+            }
+        }
+        "ident_wide" => {
+            BIGRAT.store(true, std::sync::atomic::Ordering::Relaxed);
+            for _ in 0..cases {
+                let a = rand_ident(rng, 9);
+                let b = related_ident(rng, &a, 9);
+                let c = related_ident(rng, &b, 9);
+                let (sa, sb, sc) = (ident_str(&a), ident_str(&b), ident_str(&c));
+                let m = rng.below(42);
+                writeln!(out, "F id.cmp {sa} {sb}").unwrap();
+                writeln!(out, "F id.cmp {sb} {sc}").unwrap();
+                writeln!(out, "F id.cmp {sa} {sc}").unwrap();
+                writeln!(out, "F id.between {sa} {sb} {m}").unwrap();
+                writeln!(out, "F id.between {sb} {sc} {m}").unwrap();
+                writeln!(out, "F id.between {sa} - {m}").unwrap();
+                writeln!(out, "F id.between - {sb} {m}").unwrap();
+                writeln!(out, "F id.value {sc}").unwrap();
+            }
+            BIGRAT.store(false, std::sync::atomic::Ordering::Relaxed);
+        }
+        _ => {}
     }
 }
 
@@ -1736,6 +2030,7 @@ pub fn main(args: &[String]) {
         "merkle_small_all_orders" => crate::gen_merkle::small_all_orders(&mut out, &mut rng, cases),
         "map_scenario" => map_scenario(&mut out, &mut rng, cases),
         "map_overtake" => map_overtake(&mut out, &mut rng, cases),
+        "orswot_wide" | "mvreg_wide" | "map_wide" | "lattice_wide" | "vclock_wide" | "list_wide" | "glist_wide" | "ident_wide" => wide(&mut out, &mut rng, profile, cases),
         "map_vm" => map_vm(&mut out, &mut rng, cases),
         // `cases` is the script length here (quick 4, thorough 5)
         "orswot_exhaustive" => orswot_exhaustive(&mut out, cases.clamp(1, 6)),
